@@ -59,6 +59,8 @@ for d in sorted(glob.glob(f"{out_root}/*/")):
     meta = json.load(open(mf))
     detected = meta.get("detected_by_quick_check_of", [])
     outcome = ("detected by " + ",".join(detected)) if detected else "MISSED"
+    if meta.get("neutralised_by_fix") and not detected:
+        outcome = "missed at first; the defect it relied on was then found on the unchanged tree and fixed - the change no longer breaks the property"
     first = meta.get("first_run")
     if first is not None and not first.get("detected_by_quick_check_of") and detected:
         outcome += " (missed at first; caught after the harness was strengthened)"
